@@ -13,6 +13,7 @@
 package main
 
 import (
+	"encoding/json"
 	"fmt"
 	"math"
 	"os"
@@ -423,7 +424,7 @@ func (it orderItem) sql() string {
 // ---------- functions ----------
 
 var modelFns = []string{"row_number", "rank", "dense_rank", "cume_dist", "percent_rank", "ntile",
-	"first_value", "last_value", "nth_value", "lag", "lead", "cells", "count", "count_star", "listagg"}
+	"first_value", "last_value", "nth_value", "lag", "lead", "cells", "count", "count_star", "listagg", "listaggd", "jsonagg"}
 var sqlAggs = []string{"COUNT", "SUM", "AVG", "MIN", "MAX", "MEDIAN", "STDEV", "STDEVP", "VAR", "VARP"}
 
 var tieSafe = map[string]bool{"rank": true, "dense_rank": true, "cume_dist": true, "percent_rank": true}
@@ -592,6 +593,10 @@ func (c caseSpec) callSQL() string {
 		return "COUNT(*) " + c.overSQL()
 	case "listagg":
 		return "LISTAGG(x, '|') " + c.overSQL()
+	case "listaggd":
+		return "LISTAGG(DISTINCT x, '|') " + c.overSQL()
+	case "jsonagg":
+		return "JSON_AGG(x) " + c.overSQL()
 	}
 	d := ""
 	if c.distinct {
@@ -696,6 +701,10 @@ func run(seed int64, n int, dir string, _ []string) {
 			}
 			literalCaseCheck(g, o, pr, rows, cpu)
 			literalCaseCheck(g, o, pr, rows, cpu)
+			if akind != aMixed {
+				groupedListAgg(g, o, pr, rows, cpu)
+				groupedListAgg(g, o, pr, rows, cpu)
+			}
 		}
 		pr.DisposeTable("t")
 	}
@@ -720,7 +729,7 @@ func genCase(g *hc.Gen, nrows, akind int) caseSpec {
 	default:
 		c.fn = "agg:" + sqlAggs[g.Intn(len(sqlAggs))]
 	}
-	if (c.fn == "cells" || c.fn == "listagg") && akind == aMixed {
+	if (c.fn == "cells" || c.fn == "listagg" || c.fn == "listaggd" || c.fn == "jsonagg") && akind == aMixed {
 		c.fn = "count"
 	}
 	if strings.HasPrefix(c.fn, "agg:") && akind != aInts {
@@ -874,7 +883,28 @@ func runCase(g *hc.Gen, o *hc.Out, pr *hc.Proc, rows [][]value.Primary, c caseSp
 	o.NonTrivial(fmt.Sprintf("%s|%s|ign=%v|p%d|o%d|u=%v|parts<=%d|rows<=%d|d=%v", c.fn, c.w.class(), c.ign, len(c.pcols), len(c.items), c.uniqueOrder(), sizeBand(len(parts)), sizeBand(nrows), c.distinct))
 
 	// ----- the operation line for the model of the current code -----
-	isModelFn := !strings.HasPrefix(c.fn, "agg:")
+	mfn, mflag := c.fn, c.ign
+	if strings.HasPrefix(c.fn, "agg:") {
+		// the aggregates the model computes itself (on integer / text / NULL cells)
+		mfn, mflag = "", c.distinct
+		if akind != aMixed {
+			switch c.fn {
+			case "agg:SUM":
+				mfn = "sum"
+			case "agg:AVG":
+				mfn = "avg"
+			case "agg:MIN":
+				mfn = "min"
+			case "agg:MAX":
+				mfn = "max"
+			case "agg:MEDIAN":
+				mfn = "median"
+			case "agg:COUNT":
+				mfn = "countd"
+			}
+		}
+	}
+	isModelFn := mfn != ""
 	op := ""
 	if isModelFn {
 		a1, a2 := "-", "-"
@@ -885,11 +915,11 @@ func runCase(g *hc.Gen, o *hc.Out, pr *hc.Proc, rows [][]value.Primary, c caseSp
 			a2 = hc.EncVal(c.a2)
 		}
 		ign := "0"
-		if c.ign {
+		if mflag {
 			ign = "1"
 		}
 		var sb strings.Builder
-		fmt.Fprintf(&sb, "c17.%s %s %s %s %s %d", c.fn, a1, a2, ign, c.w.tok(), len(c.items))
+		fmt.Fprintf(&sb, "c17.%s %s %s %s %s %d", mfn, a1, a2, ign, c.w.tok(), len(c.items))
 		for _, id := range order {
 			fmt.Fprintf(&sb, " %d %d", id, keyOf[id])
 			for _, it := range c.items {
@@ -1000,7 +1030,14 @@ func runCase(g *hc.Gen, o *hc.Out, pr *hc.Proc, rows [][]value.Primary, c caseSp
 						}
 					}
 					toks[id] = cellsTok(s, "|")
-				case "listagg":
+				case "jsonagg":
+					tok, ok := jsonCellsTok(hc.StrOf(or.r))
+					if !ok {
+						lawCap(o, "analytic:json_agg:other", replay(map[string]interface{}{"id": id, "got": hc.EncVal(or.r)}))
+						bad = true
+					}
+					toks[id] = tok
+				case "listagg", "listaggd":
 					if isNull(or.r) {
 						toks[id] = "[]"
 					} else {
@@ -1019,6 +1056,57 @@ func runCase(g *hc.Gen, o *hc.Out, pr *hc.Proc, rows [][]value.Primary, c caseSp
 			}
 		}
 		o.Case(op, impl)
+		if c.fn == "dense_rank" {
+			// the peer groups of perseCumulativeGroups, numbered: the same values through `cumGroups`
+			o.Case(strings.Replace(op, "c17.dense_rank ", "c17.groups ", 1), impl)
+		}
+		// Analyze end to end: the model orders the rows and computes the partition keys itself
+		if !src.derived && (c.uniqueOrder() || !c.hasOrder()) && nrows <= 150 && g.Intn(2) == 0 {
+			a1, a2 := "-", "-"
+			if c.a1 != nil {
+				a1 = strconv.Itoa(*c.a1)
+			}
+			if c.a2 != nil {
+				a2 = hc.EncVal(c.a2)
+			}
+			flag := "0"
+			if mflag {
+				flag = "1"
+			}
+			its := make([]string, len(c.items))
+			for i, it := range c.items {
+				d, np := "a", "-"
+				if it.desc {
+					d = "d"
+				}
+				if it.np != "" {
+					np = it.np
+				}
+				its[i] = d + np
+			}
+			itok := "-"
+			if len(its) > 0 {
+				itok = strings.Join(its, ",")
+			}
+			var sb strings.Builder
+			fmt.Fprintf(&sb, "c17.full:%s %s %s %s %s %d %s %d", mfn, a1, a2, flag, c.w.tok(), len(c.items), itok, len(c.pcols))
+			for id := 0; id < nrows; id++ {
+				fmt.Fprintf(&sb, " %d", id)
+				for _, pc := range c.pcols {
+					sb.WriteString(" " + hc.EncProfile(rows[id][pc]))
+				}
+				for _, it := range c.items {
+					if it.col < 0 {
+						sb.WriteString(" " + cellTok(value.NewInteger(int64(id))))
+					} else {
+						sb.WriteString(" " + cellTok(rows[id][it.col]))
+					}
+				}
+				sb.WriteString(" " + hc.EncVal(rows[id][cX]))
+			}
+			o.Case(sb.String(), impl)
+			o.Count("full:" + mfn)
+		}
 	}
 	if err != nil {
 		return
@@ -1824,6 +1912,122 @@ func literalCaseCheck(g *hc.Gen, o *hc.Out, pr *hc.Proc, rows [][]value.Primary,
 			return
 		}
 	}
+}
+
+// a JSON array of integers, strings and nulls → [I1;Sxx;N]
+func jsonCellsTok(s string) (string, bool) {
+	dec := json.NewDecoder(strings.NewReader(s))
+	dec.UseNumber()
+	var arr []interface{}
+	if err := dec.Decode(&arr); err != nil {
+		return "", false
+	}
+	out := make([]string, len(arr))
+	for i, e := range arr {
+		switch x := e.(type) {
+		case nil:
+			out[i] = "N"
+		case json.Number:
+			if !intRe.MatchString(x.String()) {
+				return "", false
+			}
+			out[i] = "I" + x.String()
+		case string:
+			out[i] = "S" + hc.Hex(x)
+		default:
+			return "", false
+		}
+	}
+	return "[" + strings.Join(out, ";") + "]", true
+}
+
+// groupedListAgg: LISTAGG([DISTINCT] x, '|') [WITHIN GROUP (ORDER BY …)] … GROUP BY p — compared with the model's
+// listAggGrouped (groups in order of first appearance; inside a group the WITHIN GROUP order, else the row order)
+func groupedListAgg(g *hc.Gen, o *hc.Out, pr *hc.Proc, rows [][]value.Primary, cpu int) {
+	nrows := len(rows)
+	pc := cP1 + g.Intn(2)
+	distinct := g.Intn(3) == 0
+	var items []orderItem
+	switch g.Intn(4) {
+	case 0:
+	case 1:
+		items = []orderItem{{col: cK1, desc: g.Intn(2) == 0, np: g.Pick("", "f", "l")}, {col: -1}}
+	case 2:
+		items = []orderItem{{col: cK2, desc: g.Intn(2) == 0, np: g.Pick("", "f", "l")}, {col: cK1}, {col: -1, desc: true}}
+	default:
+		items = []orderItem{{col: -1, desc: true}}
+	}
+	d := ""
+	if distinct {
+		d = "DISTINCT "
+	}
+	sql := "SELECT LISTAGG(" + d + "x, '|')"
+	its := make([]string, len(items))
+	if len(items) > 0 {
+		ss := make([]string, len(items))
+		for i, it := range items {
+			ss[i] = it.sql()
+			dd, np := "a", "-"
+			if it.desc {
+				dd = "d"
+			}
+			if it.np != "" {
+				np = it.np
+			}
+			its[i] = dd + np
+		}
+		sql += " WITHIN GROUP (ORDER BY " + strings.Join(ss, ", ") + ")"
+	}
+	sql += " AS r FROM t GROUP BY " + colNames[pc]
+	v, err := safeQuery(pr, sql)
+	if err != nil {
+		lawCap(o, "analytic:grouped_listagg:error", map[string]interface{}{"sql": sql, "table": tableText(rows), "error": firstLine(err.Error())})
+		return
+	}
+	keyIDs := map[string]int{}
+	itok := "-"
+	if len(its) > 0 {
+		itok = strings.Join(its, ",")
+	}
+	flag := "0"
+	if distinct {
+		flag = "1"
+	}
+	var sb strings.Builder
+	fmt.Fprintf(&sb, "c17.glistagg - - %s none %d %s", flag, len(items), itok)
+	for id := 0; id < nrows; id++ {
+		k := normRef(rows[id][pc])
+		kid, ok := keyIDs[k]
+		if !ok {
+			kid = len(keyIDs)
+			keyIDs[k] = kid
+		}
+		fmt.Fprintf(&sb, " %d %d", id, kid)
+		for _, it := range items {
+			if it.col < 0 {
+				sb.WriteString(" " + cellTok(value.NewInteger(int64(id))))
+			} else {
+				sb.WriteString(" " + cellTok(rows[id][it.col]))
+			}
+		}
+		sb.WriteString(" " + hc.EncVal(rows[id][cX]))
+	}
+	toks := make([]string, v.RecordLen())
+	for i := range toks {
+		r := hc.ViewCell(v, i, 0)
+		if isNull(r) {
+			toks[i] = "[]"
+		} else {
+			toks[i] = cellsTok("|"+hc.StrOf(r), "|")
+		}
+	}
+	impl := "-"
+	if len(toks) > 0 {
+		impl = strings.Join(toks, "|")
+	}
+	o.Case(sb.String(), impl)
+	o.Count("grouped_listagg")
+	o.NonTrivial(fmt.Sprintf("glistagg|d=%v|%s|groups<=%d", distinct, itok, sizeBand(len(keyIDs))))
 }
 
 func intCell(p value.Primary) int {
